@@ -111,6 +111,7 @@ type oblig struct {
 	wantSat  bool // cover/vacuity obligations: expected NOT unsat
 	trivial  bool
 	baseline bool
+	prebaked bool // verdict decided by the generator (structural / unmapped): not sent to a solver
 }
 
 type closureInfo struct {
@@ -168,6 +169,7 @@ type fnCtx struct {
 	freshRefs map[string]bool
 	frozenTag map[string]*types.Map
 	frozenNow map[string]bool
+	unmappedClauses map[*clause]bool
 	allocFacts map[string]bool
 	allowedLocs map[string][]string
 	modsOf map[*ssa.BasicBlock]modSet
